@@ -406,6 +406,7 @@ func (e *Engine) canonicalise(st *State, base ObjID, roots []Value) []Value {
 				for k, v := range f.regs {
 					f.regs[k], _ = r.rewrite(v)
 				}
+				f.defers = append([]deferred{}, f.defers...)
 				for j, d := range f.defers {
 					fn, _ := r.rewrite(d.fn)
 					as, _ := r.rewrite(TupleV(d.args))
